@@ -3,7 +3,11 @@ from props import repo_common, ops_common
 
 
 def run(ctx):
-    p, hs, r = ops_common.gen_histories(ctx, "all", ctx.pick(14, 300))
+    p, hs, r = ops_common.gen_histories(ctx, "all", ctx.pick(12, 300))
+    scripted = ops_common.gen_scripted(ctx) + ops_common.gen_scripted(ctx, "forgetfault", always=("forget-prune:2?2", "forget-prune:2?3"))
+    import json
+    hs = scripted + hs
+    json.dump(hs, open(p, "w"))
     out = ctx.go_test("cmd/restic", "^TestVerif_C15$", timeout=3300, env={"VERIF_HISTORIES": p})
     return repo_common.finish_trace(ctx, out, "model_checking",
-                                    extra_cov={"histories_generated_by_tlc": len(hs), "generator": "RepoOps.tla -simulate, family all, depth 9"})
+                                    extra_cov={"histories_generated_by_tlc": len(hs), "scripted_histories_enumerated_by_tlc": len(scripted), "generator": "RepoOps.tla -simulate, family all, depth 9; scripted families copydst and forgetfault enumerated by BFS"})
